@@ -30,8 +30,15 @@ pub enum Step {
     ToRegion,
     /// get_slice(offset, len) on the current view
     GetSlice { off: u16, len: u16 },
-    /// stream the current view: through From<ByteRegion> or stream(); read sizes cycle
-    Stream { via_from: bool, reads: Vec<u16> },
+    /// stream the current view: through From<ByteRegion> or stream(); read sizes cycle;
+    /// `disturb`: between two reads of the stream, other accesses hit the same source (a
+    /// get_slice elsewhere in the content, a second stream, the first access to another content)
+    Stream {
+        via_from: bool,
+        reads: Vec<u16>,
+        #[serde(default)]
+        disturb: bool,
+    },
 }
 
 #[derive(Serialize, Deserialize, Clone, Debug)]
@@ -45,6 +52,56 @@ pub struct Case {
 }
 
 pub struct C13;
+
+/// what a disturbed stream may touch between its reads
+pub struct Env<'a> {
+    root: &'a ByteRegion,
+    root_e: &'a [u8],
+    pack: Option<&'a jbk::reader::ContentPack>,
+    /// (content index, bytes) of the other contents of the pack
+    others: &'a [(u32, Vec<u8>)],
+}
+
+impl Env<'_> {
+    fn disturb(&self, k: usize) -> Result<(), Failure> {
+        let n = self.root_e.len();
+        match k % 3 {
+            0 if n > 0 => {
+                let o = (k * 7919) % n;
+                let l = ((k * 31) % 64).min(n - o);
+                match self.root.get_slice(jbk::Offset::from(o as u64), l) {
+                    Ok(s) => ensure!(s.as_ref() == &self.root_e[o..o + l], "disturb-get-slice-bytes", "get_slice({o},{l}) between two stream reads returned foreign bytes"),
+                    Err(e) => fail!("disturb-get-slice-error", "get_slice({o},{l}) between two stream reads: {e}"),
+                }
+            }
+            1 => {
+                if let (Some(pack), false) = (self.pack, self.others.is_empty()) {
+                    let (idx, e) = &self.others[k % self.others.len()];
+                    match pack.get_content(jbk::ContentIdx::from(*idx)) {
+                        Ok(Some(r)) => {
+                            let mut v = vec![];
+                            if let Err(err) = r.stream().read_to_end(&mut v) {
+                                fail!("disturb-other-content-error", "reading content {idx} between two stream reads: {err}");
+                            }
+                            ensure!(&v == e, "disturb-other-content-bytes", "content {idx} read between two stream reads returned foreign bytes");
+                        }
+                        other => fail!("disturb-other-content-error", "content {idx}: {:?}", other.map(|o| o.map(|r| r.size())).map_err(|e| e.to_string())),
+                    }
+                }
+            }
+            _ if n > 0 => {
+                let mut s2 = self.root.stream();
+                let mut b = [0u8; 5];
+                match s2.read(&mut b) {
+                    Ok(m) => ensure!(b[..m] == self.root_e[..m], "disturb-second-stream-bytes", "a second stream opened between two reads returned foreign bytes"),
+                    Err(e) => fail!("disturb-second-stream-error", "{e}"),
+                }
+            }
+            _ => {}
+        }
+        Ok(())
+    }
+}
 
 struct St {
     depth_nonzero_cuts: usize,
@@ -61,7 +118,7 @@ fn map_range(off: u16, size: u16, len: usize) -> (usize, usize) {
     (o, if size == u16::MAX { len - o } else { s })
 }
 
-fn check_stream(mut s: ByteStream, e: &[u8], reads: &[u16], how: &str, st: &mut St) -> Result<(), Failure> {
+fn check_stream(mut s: ByteStream, e: &[u8], reads: &[u16], how: &str, st: &mut St, env: Option<&Env>) -> Result<(), Failure> {
     st.streams += 1;
     ensure!(s.size() == e.len() as u64, format!("stream-size-{how}"), "stream ({how}): size() = {} for a view of {} bytes", s.size(), e.len());
     ensure!(s.offset() == 0, format!("stream-offset-{how}"), "stream ({how}): initial offset() = {}", s.offset());
@@ -102,6 +159,9 @@ fn check_stream(mut s: ByteStream, e: &[u8], reads: &[u16], how: &str, st: &mut 
             s.size()
         );
         st.evals += 1;
+        if let Some(env) = env {
+            env.disturb(k)?;
+        }
         if pos == e.len() {
             // at the end: reads return 0
             let mut b2 = [0u8; 16];
@@ -139,13 +199,13 @@ fn check_get_slice(got: jbk::Result<std::borrow::Cow<[u8]>>, e: &[u8], o: usize,
     Ok(())
 }
 
-fn interp_region(r: &ByteRegion, e: &[u8], steps: &[Step], depth: usize, st: &mut St) -> Result<(), Failure> {
+fn interp_region(r: &ByteRegion, e: &[u8], steps: &[Step], depth: usize, st: &mut St, env: &Env) -> Result<(), Failure> {
     ensure!(r.size().into_u64() == e.len() as u64, "region-size", "ByteRegion::size() = {} for a view of {} bytes", r.size().into_u64(), e.len());
     st.max_depth = st.max_depth.max(depth);
     let Some((step, rest)) = steps.split_first() else {
         // leaf: whole view through every accessor
         check_get_slice(r.get_slice(jbk::Offset::zero(), e.len()), e, 0, e.len(), "region", st)?;
-        check_stream(r.stream(), e, &[1000], "stream()", st)?;
+        check_stream(r.stream(), e, &[1000], "stream()", st, None)?;
         return Ok(());
     };
     match step {
@@ -155,37 +215,38 @@ fn interp_region(r: &ByteRegion, e: &[u8], steps: &[Step], depth: usize, st: &mu
                 st.depth_nonzero_cuts += 1;
             }
             let sl = r.cut(jbk::Offset::from(o as u64), jbk::Size::from(s as u64));
-            interp_slice(&sl, &e[o..o + s], rest, depth + 1, st)
+            interp_slice(&sl, &e[o..o + s], rest, depth + 1, st, env)
         }
         Step::AsSlice => {
             st.conversions += 1;
-            interp_slice(&r.as_slice(), e, rest, depth, st)
+            interp_slice(&r.as_slice(), e, rest, depth, st, env)
         }
-        Step::ToRegion => interp_region(r, e, rest, depth, st),
+        Step::ToRegion => interp_region(r, e, rest, depth, st, env),
         Step::GetSlice { off, len } => {
             let (o, l) = map_range(*off, *len, e.len());
             check_get_slice(r.get_slice(jbk::Offset::from(o as u64), l), e, o, l, "region", st)?;
-            interp_region(r, e, rest, depth, st)
+            interp_region(r, e, rest, depth, st, env)
         }
-        Step::Stream { via_from, reads } => {
+        Step::Stream { via_from, reads, disturb } => {
+            let envo = if *disturb { Some(env) } else { None };
             if *via_from {
                 st.conversions += 1;
                 let s: ByteStream = r.clone().into();
-                check_stream(s, e, reads, "From<ByteRegion>", st)?;
+                check_stream(s, e, reads, "From<ByteRegion>", st, envo)?;
             } else {
-                check_stream(r.stream(), e, reads, "stream()", st)?;
+                check_stream(r.stream(), e, reads, "stream()", st, envo)?;
             }
-            interp_region(r, e, rest, depth, st)
+            interp_region(r, e, rest, depth, st, env)
         }
     }
 }
 
-fn interp_slice(s: &ByteSlice, e: &[u8], steps: &[Step], depth: usize, st: &mut St) -> Result<(), Failure> {
+fn interp_slice(s: &ByteSlice, e: &[u8], steps: &[Step], depth: usize, st: &mut St, env: &Env) -> Result<(), Failure> {
     ensure!(s.size().into_u64() == e.len() as u64, "slice-size", "ByteSlice::size() = {} for a view of {} bytes", s.size().into_u64(), e.len());
     st.max_depth = st.max_depth.max(depth);
     let Some((step, rest)) = steps.split_first() else {
         check_get_slice(s.get_slice(jbk::Offset::zero(), e.len()), e, 0, e.len(), "slice", st)?;
-        check_stream(s.stream(), e, &[777], "slice.stream()", st)?;
+        check_stream(s.stream(), e, &[777], "slice.stream()", st, None)?;
         return Ok(());
     };
     match step {
@@ -195,29 +256,30 @@ fn interp_slice(s: &ByteSlice, e: &[u8], steps: &[Step], depth: usize, st: &mut 
                 st.depth_nonzero_cuts += 1;
             }
             let sl = s.cut(jbk::Offset::from(o as u64), jbk::Size::from(l as u64));
-            interp_slice(&sl, &e[o..o + l], rest, depth + 1, st)
+            interp_slice(&sl, &e[o..o + l], rest, depth + 1, st, env)
         }
-        Step::AsSlice => interp_slice(s, e, rest, depth, st),
+        Step::AsSlice => interp_slice(s, e, rest, depth, st, env),
         Step::ToRegion => {
             st.conversions += 1;
             let r: ByteRegion = s.clone().into();
-            interp_region(&r, e, rest, depth, st)
+            interp_region(&r, e, rest, depth, st, env)
         }
         Step::GetSlice { off, len } => {
             let (o, l) = map_range(*off, *len, e.len());
             check_get_slice(s.get_slice(jbk::Offset::from(o as u64), l), e, o, l, "slice", st)?;
-            interp_slice(s, e, rest, depth, st)
+            interp_slice(s, e, rest, depth, st, env)
         }
-        Step::Stream { via_from, reads } => {
+        Step::Stream { via_from, reads, disturb } => {
+            let envo = if *disturb { Some(env) } else { None };
             if *via_from {
                 st.conversions += 2;
                 let r: ByteRegion = s.clone().into();
                 let bs: ByteStream = r.into();
-                check_stream(bs, e, reads, "From<ByteRegion>", st)?;
+                check_stream(bs, e, reads, "From<ByteRegion>", st, envo)?;
             } else {
-                check_stream(s.stream(), e, reads, "slice.stream()", st)?;
+                check_stream(s.stream(), e, reads, "slice.stream()", st, envo)?;
             }
-            interp_slice(s, e, rest, depth, st)
+            interp_slice(s, e, rest, depth, st, env)
         }
     }
 }
@@ -230,7 +292,7 @@ fn step_strategy() -> BoxedStrategy<Step> {
         2 => Just(Step::ToRegion),
         2 => (arg.clone(), arg).prop_map(|(off, len)| Step::GetSlice { off, len }),
         3 => (any::<bool>(), prop::collection::vec(prop_oneof![2 => Just(0u16), 2 => Just(1u16), 4 => 1u16..64, 2 => 1000u16..5000, 1 => Just(u16::MAX)], 0..6))
-            .prop_map(|(via_from, reads)| Step::Stream { via_from, reads }),
+            .prop_map(|(via_from, reads)| Step::Stream { via_from, disturb: reads.len() % 2 == 1, reads }),
     ]
     .boxed()
 }
@@ -250,7 +312,7 @@ impl Property for C13 {
     fn cases(tier: Tier) -> u32 {
         match tier {
             Tier::Quick => 12000,
-            Tier::Thorough => 200000,
+            Tier::Thorough => 1500000,
         }
     }
 
@@ -276,7 +338,7 @@ impl Property for C13 {
     }
 
     fn required_classes(_tier: Tier) -> Vec<&'static str> {
-        vec!["src:Memory", "src:File", "src:Mmap", "src:Lz4", "src:Lzma", "src:Zstd", "src:Fed", "nested-cut-depth>=3", "via-From<ByteRegion>", "mmap>=4KiB", "content-not-at-0"]
+        vec!["src:Memory", "src:File", "src:Mmap", "src:Lz4", "src:Lzma", "src:Zstd", "src:Fed", "nested-cut-depth>=3", "via-From<ByteRegion>", "mmap>=4KiB", "content-not-at-0", "disturbed-stream"]
     }
 
     fn run(case: &Case, ctx: &Ctx) -> CaseResult {
@@ -294,7 +356,8 @@ impl Property for C13 {
             let region = jbk::verif::decoder_region(std::io::Cursor::new(all), total);
             let r: ByteRegion = region.cut(jbk::Offset::from(pre.len() as u64), jbk::Size::from(e.len() as u64)).into();
             info.class("content-not-at-0");
-            interp_region(&r, &e, &case.program, 0, &mut st)?;
+            let env = Env { root: &r, root_e: &e, pack: None, others: &[] };
+            interp_region(&r, &e, &case.program, 0, &mut st, &env)?;
         } else {
             let comp = match case.source {
                 SrcKind::Lz4 => Comp::Lz4(3),
@@ -361,7 +424,9 @@ impl Property for C13 {
                 Ok(None) => fail!("content-none", "content not found"),
                 Err(err) => fail!("content-error", "{err}"),
             };
-            interp_region(&r, &e, &case.program, 0, &mut st)?;
+            let others: Vec<(u32, Vec<u8>)> = before.iter().enumerate().map(|(i, b)| (i as u32, b.clone())).collect();
+            let env = Env { root: &r, root_e: &e, pack: Some(&pack), others: &others };
+            interp_region(&r, &e, &case.program, 0, &mut st, &env)?;
             let _ = std::fs::remove_file(&path);
         }
         if st.max_depth >= 3 {
@@ -369,6 +434,9 @@ impl Property for C13 {
         }
         if case.program.iter().any(|s| matches!(s, Step::Stream { via_from: true, .. })) {
             info.class("via-From<ByteRegion>");
+        }
+        if case.program.iter().any(|s| matches!(s, Step::Stream { disturb: true, .. })) {
+            info.class("disturbed-stream");
         }
         info.evals = st.evals.max(1);
         info.nontrivial = st.depth_nonzero_cuts > 0 && st.max_depth >= 2 && st.conversions > 0;
